@@ -4,8 +4,8 @@
    vm_compute; the same histories are the first corpus entries of the check and were
    replayed on the real pre-fix code (notes/C13.md).  Also: witnesses showing that the
    hypotheses of kube_view_exact are needed. *)
-From Coq Require Import List ZArith Bool.
-From GZ Require Import C13.Model C13.Proofs C13.ProofsB C13.ProofsC C13.ProofsD C13.ProofsF.
+From Coq Require Import List ZArith Bool Lia.
+From GZ Require Import C13.Model C13.Proofs C13.ProofsB C13.ProofsC C13.ProofsD C13.ProofsF C13.ProofsG.
 Import ListNotations.
 Open Scope Z_scope.
 
@@ -116,6 +116,59 @@ Theorem gap_after_snapshot_refuted :
 Proof.
   exists [BPut 1 1; BPut 2 2], [DLoad 0 [] []; DWatch 1]. split; [|split; reflexivity].
   cbn. intros [_ [H _]]. discriminate.
+Qed.
+
+(* ------------------------------------------------------------------ boundary of view_equals_etcd_after_any_consistent_delivery *)
+(* A STALE snapshot (a load answered at a revision older than what the watch has already
+   delivered; every single delivery is consistent) puts the view back: until the stream that
+   follows it has caught up, Values() is NOT etcd's registrations.  etcd: put 1=10.  The
+   registry: load at 0, watch event 0 (view [10]), load answered at revision 0 again. *)
+Theorem stale_snapshot_before_catch_up_refuted :
+  exists h ds, consistent h 0 0 ds /\ wf_run (init [false]) (map ev_of_g ds) /\
+    final_pos_g 0 0 ds = (0%nat, 1%nat) /\
+    etcd_state h 1 = [(1, 10)] /\
+    map c_values (conts (run (init [false]) (map ev_of_g ds))) = [[]].
+Proof.
+  exists [BPut 1 10], [GLoad 0 [] []; GRestart 0; GResp 0 [BPut 1 10]; GLoad 0 [] [LDel 1]].
+  split; [|split; [|split; [|split]]]; try reflexivity.
+  - cbn. repeat split; try lia; intros k; reflexivity.
+  - cbn. repeat split; apply Permutation.Permutation_refl.
+Qed.
+
+(* ... and the stream the code then opens (WithRev(revision of that snapshot + 1)) repairs it *)
+Example stale_snapshot_then_replay_catches_up :
+  let h := [BPut 1 10] in
+  let ds := [GLoad 0 [] []; GRestart 0; GResp 0 [BPut 1 10]; GLoad 0 [] [LDel 1]; GRestart 0; GResp 0 [BPut 1 10]] in
+  consistent_b h 0 0 ds = true /\ final_pos_g 0 0 ds = (1%nat, 1%nat) /\
+  map c_values (conts (run (init [false]) (map ev_of_g ds))) = [[10]].
+Proof. vm_compute. repeat split. Qed.
+
+(* A stream that starts BEYOND the position reached (p > pos: e.g. WithRev(rev+2), or no
+   WithRev at all after mutations were made) loses a registration for good: etcd: put 1=10,
+   put 2=20; load at 0, the stream starts with mutation 1. *)
+Theorem restart_forward_refuted :
+  exists h ds, ~ consistent h 0 0 ds /\
+    final_pos_g 0 0 ds = (2%nat, 2%nat) /\
+    etcd_state h 2 = [(2, 20); (1, 10)] /\
+    map c_values (conts (run (init [false]) (map ev_of_g ds))) = [[20]].
+Proof.
+  exists [BPut 1 10; BPut 2 20], [GLoad 0 [] []; GRestart 1; GResp 1 [BPut 2 20]].
+  split; [|split; [|split]]; try reflexivity.
+  cbn. intros [_ [_ [H _]]]. lia.
+Qed.
+
+(* A replay that stops half way (the stream restarted at the revision of the load delivers
+   only the first of the events it has to deliver again): the deleted registration is back.
+   etcd: put 1=10, delete 1. *)
+Theorem partial_replay_refuted :
+  exists h ds, consistent h 0 0 ds /\
+    final_pos_g 0 0 ds = (1%nat, 2%nat) /\
+    etcd_state h 2 = [] /\
+    map c_values (conts (run (init [false]) (map ev_of_g ds))) = [[10]].
+Proof.
+  exists [BPut 1 10; BDel 1], [GLoad 0 [] []; GRestart 0; GResp 0 [BPut 1 10; BDel 1]; GRestart 0; GResp 0 [BPut 1 10]].
+  split; [|split; [|split]]; try reflexivity.
+  cbn. repeat split; try lia; intros k; reflexivity.
 Qed.
 
 (* ------------------------------------------------------------------ kube: boundary of kube_view_exact *)
